@@ -472,7 +472,7 @@ func cmdCheck(repo, verif, prop, tier, only string) int {
 		}
 		for _, p := range insts {
 			h := &HarnessRun{Name: hs.Fn, Pkg: modulePath + "/" + hs.Pkg, Mode: parseMode(hs.Mode), Params: p, Tier: tier,
-				timeoutMS: hs.TimeoutMS, stepLimit: hs.StepLimit, maxPaths: hs.MaxPaths, maxWallS: hs.MaxWallS, noIfConv: hs.NoIfConv, maxConcretize: hs.MaxConcretize}
+				timeoutMS: hs.TimeoutMS, stepLimit: hs.StepLimit, maxPaths: hs.MaxPaths, maxWallS: hs.MaxWallS, noIfConv: hs.NoIfConv, maxConcretize: hs.MaxConcretize, solverBin: hs.Solver}
 			if tier == "thorough" && h.timeoutMS != 0 {
 				h.timeoutMS *= 3
 			}
@@ -597,6 +597,9 @@ func cmdCheck(repo, verif, prop, tier, only string) int {
 			// convert model values
 			for j := range f.Inputs {
 				f.Inputs[j].Value = canonValue(f.Inputs[j].Kind, f.Inputs[j].Value, h.Mode == ModeReal)
+				for k := range f.Inputs[j].Args {
+					f.Inputs[j].Args[k] = canonValue("f64", f.Inputs[j].Args[k], h.Mode == ModeReal)
+				}
 			}
 			rf := replayFileOut{Property: prop, Harness: f.Harness, Pkg: specs[i].Pkg, Instance: f.Instance, Label: f.Label, Kind: f.Kind,
 				Msg: f.Msg, Params: f.Params, RealMode: h.Mode == ModeReal, Inputs: f.Inputs, Stack: f.Stack}
@@ -695,6 +698,13 @@ func cmdCheck(repo, verif, prop, tier, only string) int {
 			skip := false
 			for j := range ins {
 				ins[j].Value = canonValue(ins[j].Kind, ins[j].Value, h.Mode == ModeReal)
+				if len(ins[j].Args) > 0 {
+					args := make([]string, len(ins[j].Args))
+					for k := range ins[j].Args {
+						args[k] = canonValue("f64", ins[j].Args[k], h.Mode == ModeReal)
+					}
+					ins[j].Args = args
+				}
 				if ins[j].Label == "rand.NormFloat64" {
 					skip = true // not replayable natively
 				}
@@ -758,7 +768,7 @@ func cmdCheck(repo, verif, prop, tier, only string) int {
 		"paths that end in fp-exception (division by zero, sqrt of a negative) or assume-false are outside the claim",
 		"one deterministic goroutine schedule per path (cooperative round-robin); map iteration in insertion order unless a harness asks for nondeterministic order",
 		"package initialisers of the module run once concretely; initialisers outside the module are skipped",
-		"solver: z3 (/usr/bin/z3), any (error line or unknown answer makes the run inconclusive (exit 3), never a pass",
+		"solver: z3 5.1.0 (z3-new -in, persistent, push/pop), except harnesses whose spec says solver=z3 (z3 4.8.12, /usr/bin/z3: several times faster on the bit-precise FP add/mul queries of those harnesses); any (error line or unknown answer makes the run inconclusive (exit 3), never a pass",
 	)
 	for _, s := range stubs {
 		assumptions = append(assumptions, "model/stub used: "+s)
